@@ -32,23 +32,23 @@ Qed.
 (* what a per-connection function does to the context *)
 Definition emits (c : rconn) (x : rctx) (c' : rconn) (x' : rctx) : Prop :=
   rc_sid c' = rc_sid c /\
-  (x_panic x' = true \/ exists evs, x_ev x' = x_ev x ++ evs /\ shape (rc_sid c) (both_closed c) (both_closed c') evs).
+  exists evs, x_ev x' = x_ev x ++ evs /\ shape (rc_sid c) (both_closed c) (both_closed c') evs.
+
+Lemma emits_bc : forall c x c' x', emits c x c' x' -> both_closed c = true -> both_closed c' = true.
+Proof. intros c x c' x' [_ [evs [_ Sh]]] Hb. rewrite Hb in Sh. cbn in Sh. apply Sh. Qed.
 
 Lemma emits_refl : forall c x, emits c x c x.
-Proof. intros. split; [reflexivity|right]. exists []. rewrite app_nil_r. split; [reflexivity|apply shape_refl]. Qed.
+Proof. intros. split; [reflexivity|]. exists []. rewrite app_nil_r. split; [reflexivity|apply shape_refl]. Qed.
 
-Lemma emits_trans : forall c x c1 x1 c2 x2, emits c x c1 x1 -> (x_panic x1 = true -> x_panic x2 = true) ->
-  emits c1 x1 c2 x2 -> emits c x c2 x2.
+Lemma emits_trans : forall c x c1 x1 c2 x2, emits c x c1 x1 -> emits c1 x1 c2 x2 -> emits c x c2 x2.
 Proof.
-  intros c x c1 x1 c2 x2 [S1 H1] Hm [S2 H2]. split; [congruence|].
-  destruct H2 as [H2|[e2 [E2 Sh2]]]; [left; exact H2|].
-  destruct H1 as [H1|[e1 [E1 Sh1]]]; [left; apply Hm; exact H1|right].
+  intros c x c1 x1 c2 x2 [S1 [e1 [E1 Sh1]]] [S2 [e2 [E2 Sh2]]]. split; [congruence|].
   exists (e1 ++ e2). split; [rewrite E2, E1, app_assoc; reflexivity|]. rewrite S1 in Sh2. eapply shape_trans; eauto.
 Qed.
 
 (* same halves closedness, same stream: nothing emitted *)
 Lemma emits_same : forall c x c', rc_sid c' = rc_sid c -> both_closed c' = both_closed c -> emits c x c' x.
-Proof. intros c x c' Hs Hb. split; [exact Hs|right]. exists []. rewrite app_nil_r. split; [reflexivity|]. rewrite Hb. apply shape_refl. Qed.
+Proof. intros c x c' Hs Hb. split; [exact Hs|]. exists []. rewrite app_nil_r. split; [reflexivity|]. rewrite Hb. apply shape_refl. Qed.
 
 Lemma bc_put : forall c w h, h_closed h = h_closed (get_half c w) -> both_closed (put_half c w h) = both_closed c.
 Proof. intros c w h H. rewrite (both_closed_halves _ w), get_put_same, get_put_other, (both_closed_halves c w), H. reflexivity. Qed.
@@ -57,181 +57,190 @@ Lemma bc_open : forall c w, h_closed (get_half c w) = false -> both_closed c = f
 Proof. intros c w H. rewrite (both_closed_halves c w), H. reflexivity. Qed.
 
 Lemma close_half_emits : forall c w x c' rm x', h_closed (get_half c w) = false ->
-  close_half v cfg c w x = (c', rm, x') -> emits c x c' x' /\ x_panic x' = x_panic x.
+  close_half v cfg c w x = (c', rm, x') -> emits c x c' x' /\ (rm = true -> both_closed c' = true).
 Proof.
   intros c w x c' rm x' Hnc H. unfold close_half in H.
   match type of H with context [put_half c w ?hh] => set (h' := hh) in * end.
   pose proof (bc_open c w Hnc) as Hb.
-  destruct (both_closed (put_half c w h')) eqn:Eb; inversion H; subst; clear H; cbn [x_panic]; (split; [|reflexivity]);
-    (split; [apply sid_put|right]); cbn [x_ev]; rewrite Hb, Eb.
+  destruct (both_closed (put_half c w h')) eqn:Eb; inversion H; subst; clear H; (split; [|intros Hr; first [exact Eb|discriminate Hr]]);
+    (split; [apply sid_put|]); cbn [x_ev]; rewrite Hb, Eb.
   - eexists. split; [reflexivity|]. cbn. exists []. split; [constructor|right; split; [reflexivity|]]. eexists. reflexivity.
   - exists []. rewrite app_nil_r. split; [reflexivity|]. cbn. exists []. split; [constructor|left; split; reflexivity].
 Qed.
 
 Lemma send_emits : forall sid n h x r0 acts h' x' ns e, send v cfg sid n h x r0 acts = (h', x', ns, e) ->
-  h_closed h' = h_closed h /\ (x_panic x = true -> x_panic x' = true) /\
-  exists ev, x_ev x' = x_ev x ++ [ev] /\ is_data_of sid ev.
+  h_closed h' = h_closed h /\ exists ev, x_ev x' = x_ev x ++ [ev] /\ is_data_of sid ev.
 Proof.
   intros sid n h x r0 acts h' x' ns e H. unfold send in H.
   destruct (add_pending (h_saved h) (cseq r0)) as [[[pre sl] saved1] reld].
   destruct (add_contiguous (h_queue h) (sadd (cseq r0) (clen r0))) as [[tk q1] nextSeq].
   match type of H with context [if ?b then _ else find_keep _ _ _ _ _] => destruct b end.
-  - destruct (keep_conv _ 0) as [[saved2 alloc] pk]. inversion H; subst. cbn [h_closed x_panic x_ev].
-    split; [reflexivity|]. split; [intros Hp; rewrite Hp; reflexivity|]. eexists. split; [reflexivity|reflexivity].
-  - destruct (find_keep _ _ 0 _ 0) as [ndx kskip]. destruct (keep_conv _ kskip) as [[saved2 alloc] pk]. inversion H; subst. cbn [h_closed x_panic x_ev].
-    split; [reflexivity|]. split; [intros Hp; rewrite Hp; reflexivity|]. eexists. split; [reflexivity|reflexivity].
+  - destruct (keep_conv _ 0) as [[saved2 alloc] pk]. inversion H; subst. cbn [h_closed x_ev].
+    split; [reflexivity|]. eexists. split; [reflexivity|reflexivity].
+  - destruct (find_keep _ _ 0 _ 0) as [ndx kskip]. destruct (keep_conv _ kskip) as [[saved2 alloc] pk]. inversion H; subst. cbn [h_closed x_ev].
+    split; [reflexivity|]. eexists. split; [reflexivity|reflexivity].
 Qed.
 
 Lemma send_conn_emits : forall c w h x r0 acts c' rm x' ns, h_closed h = false -> h_closed (get_half c w) = false ->
   send_conn v cfg c w h x r0 acts = (c', rm, x', ns) ->
-  emits c x c' x' /\ (x_panic x = true -> x_panic x' = true).
+  emits c x c' x' /\ (rm = true -> both_closed c' = true).
 Proof.
   intros c w h x r0 acts c' rm x' ns Hh Hnc H. unfold send_conn in H.
   destruct (send v cfg (rc_sid c) (rc_ncalls c) h x r0 acts) as [[[h1 x1] nextSeq] isEnd] eqn:Es.
-  destruct (send_emits _ _ _ _ _ _ _ _ _ _ Es) as [Hc1 [Hm1 [ev [Ev Dv]]]].
+  destruct (send_emits _ _ _ _ _ _ _ _ _ _ Es) as [Hc1 [ev [Ev Dv]]].
   set (c1 := bump_calls (put_half c w h1)) in *.
   assert (Hs1 : rc_sid c1 = rc_sid c) by (unfold c1; rewrite sid_bump; apply sid_put).
   assert (Hg1 : get_half c1 w = h1) by (unfold c1; rewrite bump_half, get_put_same; reflexivity).
   assert (Hb0 : both_closed c = false) by (apply (bc_open c w Hnc)).
   assert (Hb1 : both_closed c1 = false) by (apply (bc_open c1 w); rewrite Hg1; congruence).
   assert (E1 : emits c x c1 x1).
-  { split; [exact Hs1|right]. exists [ev]. split; [exact Ev|]. rewrite Hb0, Hb1. cbn. exists [ev]. split; [constructor; [exact Dv|constructor]|left; split; reflexivity]. }
-  destruct (x_panic x1) eqn:Ep1.
-  - inversion H as [[A1 A2 A3 A4]]; clear H; subst c' rm x' ns. split; [split; [exact Hs1|left; exact Ep1]|intros _; exact Ep1].
+  { split; [exact Hs1|]. exists [ev]. split; [exact Ev|]. rewrite Hb0, Hb1. cbn. exists [ev]. split; [constructor; [exact Dv|constructor]|left; split; reflexivity]. }
+  destruct (x_panic x1).
+  - inversion H as [[A1 A2 A3 A4]]; clear H; subst c' rm x' ns. split; [exact E1|intros Hr; discriminate Hr].
   - destruct isEnd.
     + destruct (close_half v cfg c1 w x1) as [[c2 rm2] x2] eqn:Ec. inversion H as [[A1 A2 A3 A4]]; clear H; subst c' rm x' ns.
-      destruct (close_half_emits c1 w x1 _ _ _ ltac:(rewrite Hg1; congruence) Ec) as [E2 P2].
-      split; [eapply emits_trans; [exact E1|intros Hp; congruence|exact E2]|]. intros Hp. specialize (Hm1 Hp). congruence.
-    + inversion H as [[A1 A2 A3 A4]]; clear H; subst c' rm x' ns. split; [exact E1|]. intros Hp. specialize (Hm1 Hp). congruence.
+      destruct (close_half_emits c1 w x1 _ _ _ ltac:(rewrite Hg1; congruence) Ec) as [E2 R2].
+      split; [eapply emits_trans; [exact E1|exact E2]|exact R2].
+    + inversion H as [[A1 A2 A3 A4]]; clear H; subst c' rm x' ns. split; [exact E1|intros Hr; discriminate Hr].
 Qed.
 
 Lemma skip_flush_emits : forall c w x c' rm x', h_closed (get_half c w) = false ->
-  skip_flush v cfg c w x = (c', rm, x') -> emits c x c' x' /\ (x_panic x = true -> x_panic x' = true).
+  skip_flush v cfg c w x = (c', rm, x') -> emits c x c' x' /\ (rm = true -> both_closed c' = true).
 Proof.
   intros c w x c' rm x' Hnc H. unfold skip_flush in H.
   destruct (h_queue (get_half c w)) as [|p q'].
-  - destruct (close_half_emits c w x _ _ _ Hnc H) as [E P]. split; [exact E|congruence].
+  - exact (close_half_emits c w x _ _ _ Hnc H).
   - match type of H with context [send_conn v cfg c w ?hh x ?r ?a] => destruct (send_conn v cfg c w hh x r a) as [[[c1 rm1] x1] nextSeq] eqn:Es end.
     inversion H as [[A1 A2 A3]]; clear H; subst rm x'.
-    assert (EM : emits c x c1 x1 /\ (x_panic x = true -> x_panic x1 = true)) by (eapply send_conn_emits; [|exact Hnc|exact Es]; exact Hnc).
-    destruct EM as [E1 M1]. subst c'. split; [|exact M1].
-    destruct (nextSeq =? INVALID); [exact E1|].
-    eapply emits_trans; [exact E1|auto|]. apply emits_same; [apply sid_put|apply bc_put; reflexivity].
+    assert (EM : emits c x c1 x1 /\ (rm1 = true -> both_closed c1 = true)) by (eapply send_conn_emits; [|exact Hnc|exact Es]; exact Hnc).
+    destruct EM as [E1 R1]. subst c'.
+    destruct (nextSeq =? INVALID); [split; assumption|].
+    assert (Bc : both_closed (put_half c1 w (set_next (get_half c1 w) nextSeq)) = both_closed c1) by (apply bc_put; reflexivity).
+    split; [eapply emits_trans; [exact E1|apply emits_same; [apply sid_put|exact Bc]]|]. intros Hr. rewrite Bc. exact (R1 Hr).
 Qed.
 
-Lemma fc_loop_emits : forall t w fuel c rm x c' rm' x', fc_loop fuel v cfg c w rm x t = (c', rm', x') ->
-  emits c x c' x' /\ (x_panic x = true -> x_panic x' = true).
+Lemma fc_loop_emits : forall t w fuel c rm x c' rm' x', (rm = true -> both_closed c = true) ->
+  fc_loop fuel v cfg c w rm x t = (c', rm', x') ->
+  emits c x c' x' /\ (rm' = true -> both_closed c' = true).
 Proof.
-  intros t w. induction fuel as [|f IH]; intros c rm x c' rm' x' H; cbn [fc_loop] in H.
-  - inversion H; subst. split; [apply emits_refl|auto].
-  - destruct (h_closed (get_half c w) || x_panic x) eqn:Eg; [inversion H; subst; split; [apply emits_refl|auto]|].
+  intros t w. induction fuel as [|f IH]; intros c rm x c' rm' x' Hr H; cbn [fc_loop] in H.
+  - inversion H; subst. split; [apply emits_refl|exact Hr].
+  - destruct (h_closed (get_half c w) || x_panic x) eqn:Eg; [inversion H; subst; split; [apply emits_refl|exact Hr]|].
     apply orb_false_iff in Eg. destruct Eg as [Ec Ep].
-    destruct (h_queue (get_half c w)) as [|p q]; [inversion H; subst; split; [apply emits_refl|auto]|].
-    destruct (rp_seen p <? t); [|inversion H; subst; split; [apply emits_refl|auto]].
-    destruct (skip_flush v cfg c w x) as [[c1 rm1] x1] eqn:Es.
-    destruct (skip_flush_emits c w x _ _ _ Ec Es) as [E1 M1].
-    destruct (IH _ _ _ _ _ _ H) as [E2 M2].
-    split; [eapply emits_trans; eauto|auto].
+    destruct (h_queue (get_half c w)) as [|p q]; [inversion H; subst; split; [apply emits_refl|exact Hr]|].
+    destruct (rp_seen p <? t); [|inversion H; subst; split; [apply emits_refl|exact Hr]].
+    assert (Hrm : rm = false). { destruct rm; [specialize (Hr eq_refl); rewrite (bc_open c w Ec) in Hr; discriminate|reflexivity]. } subst rm.
+    destruct (skip_flush v cfg c w x) as [[c1 rm1] x1] eqn:Es. cbn [orb] in H.
+    destruct (skip_flush_emits c w x _ _ _ Ec Es) as [E1 R1].
+    destruct (IH _ _ _ _ _ _ R1 H) as [E2 R2].
+    split; [eapply emits_trans; eauto|exact R2].
 Qed.
 
 Lemma flush_close_emits : forall w t tc c x c' rm' x' fl cl, flush_close v cfg c w x t tc = (c', rm', x', fl, cl) ->
-  emits c x c' x' /\ (x_panic x = true -> x_panic x' = true).
+  emits c x c' x' /\ (rm' = true -> both_closed c' = true).
 Proof.
   intros w t tc c x c' rm' x' fl cl H. unfold flush_close in H.
-  destruct (h_closed (get_half c w)) eqn:Ec; [inversion H; subst; split; [apply emits_refl|auto]|].
+  destruct (h_closed (get_half c w)) eqn:Ec; [inversion H; subst; split; [apply emits_refl|intros Hr; discriminate Hr]|].
   destruct (fc_loop _ v cfg c w false x t) as [[c1 rm1] x1] eqn:El.
-  destruct (fc_loop_emits _ _ _ _ _ _ _ _ _ El) as [E1 M1].
-  destruct (x_panic x1) eqn:Ep1; [inversion H; subst; split; [exact E1|intros _; exact Ep1]|].
-  destruct (h_closed (get_half c1 w)) eqn:Ec1; [inversion H; subst; split; [exact E1|intros Hp; specialize (M1 Hp); congruence]|].
-  destruct (h_queue (get_half c1 w)); [|inversion H; subst; split; [exact E1|intros Hp; specialize (M1 Hp); congruence]].
-  destruct (conn_last_seen c1 <? tc); [|inversion H; subst; split; [exact E1|intros Hp; specialize (M1 Hp); congruence]].
+  destruct (fc_loop_emits t w _ c false x _ _ _ ltac:(intros Hr; discriminate Hr) El) as [E1 R1].
+  destruct (x_panic x1); [inversion H; subst; split; assumption|].
+  destruct (h_closed (get_half c1 w)) eqn:Ec1; [inversion H; subst; split; assumption|].
+  destruct (h_queue (get_half c1 w)); [|inversion H; subst; split; assumption].
+  destruct (conn_last_seen c1 <? tc); [|inversion H; subst; split; assumption].
   destruct (close_half v cfg c1 w x1) as [[c2 rm2] x2] eqn:Ecl. inversion H; subst.
-  destruct (close_half_emits c1 w x1 _ _ _ Ec1 Ecl) as [E2 P2].
-  split; [eapply emits_trans; [exact E1|intros; congruence|exact E2]|]. intros Hp. specialize (M1 Hp). congruence.
+  destruct (close_half_emits c1 w x1 _ _ _ Ec1 Ecl) as [E2 R2].
+  split; [eapply emits_trans; eauto|].
+  intros Hr. apply orb_true_iff in Hr. destruct Hr as [Hr|Hr]; [eapply emits_bc; [exact E2|exact (R1 Hr)]|exact (R2 Hr)].
 Qed.
 
 Lemma flush_conn_emits : forall t tc c x c' rm x' a b, flush_conn v cfg t tc c x = (c', rm, x', a, b) ->
-  emits c x c' x' /\ (rm = true -> x_panic x' = false -> both_closed c' = true \/ True).
+  emits c x c' x' /\ (rm = true -> both_closed c' = true).
 Proof.
   intros t tc c x c' rm x' a b H. unfold flush_conn in H.
   destruct (flush_close v cfg c false x t tc) as [[[[c1 rm1] x1] f1] k1] eqn:E1.
-  destruct (flush_close_emits _ _ _ _ _ _ _ _ _ _ E1) as [Em1 M1].
-  destruct (x_panic x1) eqn:Ep1; [inversion H; subst; split; [exact Em1|auto]|].
+  destruct (flush_close_emits _ _ _ _ _ _ _ _ _ _ E1) as [Em1 R1].
+  destruct (x_panic x1); [inversion H; subst; split; assumption|].
   destruct (flush_close v cfg c1 true x1 t tc) as [[[[c2 rm2] x2] f2] k2] eqn:E2.
-  destruct (flush_close_emits _ _ _ _ _ _ _ _ _ _ E2) as [Em2 M2].
-  inversion H; subst. split; [eapply emits_trans; eauto|auto].
+  destruct (flush_close_emits _ _ _ _ _ _ _ _ _ _ E2) as [Em2 R2].
+  inversion H; subst. split; [eapply emits_trans; eauto|].
+  intros Hr. apply orb_true_iff in Hr. destruct Hr as [Hr|Hr].
+  - apply orb_true_iff in Hr. destruct Hr as [Hr|Hr]; [eapply emits_bc; [exact Em2|exact (R1 Hr)]|exact (R2 Hr)].
+  - apply andb_true_iff in Hr. destruct Hr as [Hr _]. apply andb_true_iff in Hr. apply Hr.
 Qed.
 
-Lemma fa_loop_emits : forall w fuel c rm x c' rm' x', fa_loop fuel v cfg c w rm x = (c', rm', x') ->
-  emits c x c' x' /\ (x_panic x = true -> x_panic x' = true).
+Lemma fa_loop_emits : forall w fuel c rm x c' rm' x', (rm = true -> both_closed c = true) ->
+  fa_loop fuel v cfg c w rm x = (c', rm', x') -> emits c x c' x' /\ (rm' = true -> both_closed c' = true).
 Proof.
-  intros w. induction fuel as [|f IH]; intros c rm x c' rm' x' H; cbn [fa_loop] in H.
-  - inversion H; subst. split; [apply emits_refl|auto].
-  - destruct (h_closed (get_half c w) || x_panic x) eqn:Eg; [inversion H; subst; split; [apply emits_refl|auto]|].
+  intros w. induction fuel as [|f IH]; intros c rm x c' rm' x' Hr H; cbn [fa_loop] in H.
+  - inversion H; subst. split; [apply emits_refl|exact Hr].
+  - destruct (h_closed (get_half c w) || x_panic x) eqn:Eg; [inversion H; subst; split; [apply emits_refl|exact Hr]|].
     apply orb_false_iff in Eg. destruct Eg as [Ec Ep].
-    destruct (skip_flush v cfg c w x) as [[c1 rm1] x1] eqn:Es.
-    destruct (skip_flush_emits c w x _ _ _ Ec Es) as [E1 M1].
-    destruct (IH _ _ _ _ _ _ H) as [E2 M2].
-    split; [eapply emits_trans; eauto|auto].
+    assert (Hrm : rm = false). { destruct rm; [specialize (Hr eq_refl); rewrite (bc_open c w Ec) in Hr; discriminate|reflexivity]. } subst rm.
+    destruct (skip_flush v cfg c w x) as [[c1 rm1] x1] eqn:Es. cbn [orb] in H.
+    destruct (skip_flush_emits c w x _ _ _ Ec Es) as [E1 R1].
+    destruct (IH _ _ _ _ _ _ R1 H) as [E2 R2].
+    split; [eapply emits_trans; eauto|exact R2].
 Qed.
 
-Lemma flush_all_conn_emits : forall c x c' rm x' a b, flush_all_conn v cfg c x = (c', rm, x', a, b) -> emits c x c' x'.
+Lemma flush_all_conn_emits : forall c x c' rm x' a b, flush_all_conn v cfg c x = (c', rm, x', a, b) ->
+  emits c x c' x' /\ (rm = true -> both_closed c' = true).
 Proof.
   intros c x c' rm x' a b H. unfold flush_all_conn in H.
   destruct (fa_loop _ v cfg c false false x) as [[c1 rm1] x1] eqn:E1.
-  destruct (fa_loop_emits _ _ _ _ _ _ _ _ E1) as [Em1 M1].
-  destruct (x_panic x1) eqn:Ep1; [inversion H; subst; exact Em1|].
+  destruct (fa_loop_emits false _ c false x _ _ _ ltac:(intros Hr; discriminate Hr) E1) as [Em1 R1].
+  destruct (x_panic x1); [inversion H; subst; split; assumption|].
   destruct (fa_loop _ v cfg c1 true false x1) as [[c2 rm2] x2] eqn:E2.
-  destruct (fa_loop_emits _ _ _ _ _ _ _ _ E2) as [Em2 M2].
-  inversion H; subst. eapply emits_trans; eauto.
+  destruct (fa_loop_emits true _ c1 false x1 _ _ _ ltac:(intros Hr; discriminate Hr) E2) as [Em2 R2].
+  inversion H; subst. split; [eapply emits_trans; eauto|].
+  intros Hr. apply orb_true_iff in Hr. destruct Hr as [Hr|Hr]; [eapply emits_bc; [exact Em2|exact (R1 Hr)]|exact (R2 Hr)].
 Qed.
 
 Lemma assemble_conn_emits : forall c w x seq syn fin rst len ts c' rm x',
-  assemble_conn v cfg c w x seq syn fin rst len ts = (c', rm, x') -> emits c x c' x'.
+  assemble_conn v cfg c w x seq syn fin rst len ts = (c', rm, x') ->
+  emits c x c' x' /\ (rm = true -> both_closed c' = true).
 Proof.
   intros c w x seq syn fin rst len ts c' rm x' H. unfold assemble_conn in H.
   set (h0 := get_half c w) in *.
   match type of H with context [if h_closed ?hh then _ else _] => set (h := hh) in * end.
-  assert (Put : forall hh x0, h_closed hh = h_closed h0 -> emits c x0 (put_half c w hh) x0).
-  { intros hh x0 E. apply emits_same; [apply sid_put|apply bc_put; exact E]. }
-  assert (PutP : forall hh, emits c x (put_half c w hh) (with_panic x)).
-  { intros hh. split; [apply sid_put|left; reflexivity]. }
-  assert (PutU : forall hh u, h_closed hh = h_closed h0 -> emits c x (put_half c w hh) (with_used x u)).
-  { intros hh u E. split; [apply sid_put|right]. exists []. cbn [with_used x_ev]. rewrite app_nil_r. split; [reflexivity|].
+  assert (Put : forall hh x0, h_closed hh = h_closed h0 -> emits c x0 (put_half c w hh) x0 /\ (false = true -> both_closed (put_half c w hh) = true)).
+  { intros hh x0 E. split; [apply emits_same; [apply sid_put|apply bc_put; exact E]|intros Hr; discriminate Hr]. }
+  assert (PutX : forall hh x1, h_closed hh = h_closed h0 -> x_ev x1 = x_ev x ->
+            emits c x (put_half c w hh) x1 /\ (false = true -> both_closed (put_half c w hh) = true)).
+  { intros hh x1 E Ev. split; [|intros Hr; discriminate Hr]. split; [apply sid_put|]. exists []. rewrite app_nil_r. split; [exact Ev|].
     rewrite (bc_put c w hh E). apply shape_refl. }
   destruct (h_closed h) eqn:Ec; [inversion H; subst; apply Put; reflexivity|].
   assert (Hnc : h_closed (get_half c w) = false) by exact Ec.
   destruct (classify (h_next h) seq syn) as [[seq1 next1] queue].
   set (hn := set_next h next1) in *.
+  assert (Fin : forall c1 rm1 x1 (b : bool) nx, emits c x c1 x1 /\ (rm1 = true -> both_closed c1 = true) ->
+            emits c x (if b then c1 else put_half c1 w (set_next (get_half c1 w) nx)) x1 /\
+            (rm1 = true -> both_closed (if b then c1 else put_half c1 w (set_next (get_half c1 w) nx)) = true)).
+  { intros c1 rm1 x1 b nx [E1 R1]. destruct b; [split; assumption|].
+    assert (Bc : both_closed (put_half c1 w (set_next (get_half c1 w) nx)) = both_closed c1) by (apply bc_put; reflexivity).
+    split; [eapply emits_trans; [exact E1|apply emits_same; [apply sid_put|exact Bc]]|]. intros Hr. rewrite Bc. exact (R1 Hr). }
   destruct queue.
   - destruct (check_overlap (h_queue hn) len seq1 ts (rst || fin) true) as [q2 l2 added rel tags pk].
     cbn [c2_panic c2_queue c2_rel c2_added c2_len] in H.
-    destruct pk; [inversion H; subst; apply PutP|].
-    destruct (limit_hit cfg _ _); [|inversion H; subst; apply PutU; reflexivity].
-    destruct q2 as [|p q']; [inversion H; subst; apply PutU; reflexivity|].
+    destruct pk; [inversion H; subst; apply PutX; reflexivity|].
+    destruct (limit_hit cfg _ _); [|inversion H; subst; apply PutX; reflexivity].
+    destruct q2 as [|p q']; [inversion H; subst; apply PutX; reflexivity|].
     match type of H with context [send_conn v cfg c w ?hh ?xx ?r ?a] => destruct (send_conn v cfg c w hh xx r a) as [[[c1 rm1] x1] nextSeq] eqn:Es end.
     inversion H as [[A1 A2 A3]]; clear H; subst rm x'.
-    assert (EM : emits c (with_used x _) c1 x1 /\ (x_panic (with_used x _) = true -> x_panic x1 = true)) by (eapply send_conn_emits; [|exact Hnc|exact Es]; exact Ec).
-    destruct EM as [E1 _]. subst c'.
-    assert (E0 : emits c x c1 x1).
-    { destruct E1 as [S1 E1]. split; [exact S1|]. destruct E1 as [E1|[evs [Ev Sh]]]; [left; exact E1|right]. exists evs. split; [exact Ev|exact Sh]. }
-    destruct (nextSeq =? INVALID); [exact E0|].
-    eapply emits_trans; [exact E0|auto|]. apply emits_same; [apply sid_put|apply bc_put; reflexivity].
+    assert (EM : emits c (with_used x _) c1 x1 /\ (rm1 = true -> both_closed c1 = true)) by (eapply send_conn_emits; [|exact Hnc|exact Es]; exact Ec).
+    subst c'. apply Fin. destruct EM as [[S1 [evs [Ev Sh]]] R1]. split; [|exact R1]. split; [exact S1|]. exists evs. split; [exact Ev|exact Sh].
   - destruct (overlap_existing (h_next hn) seq1 len) as [[b1 seq2] pk0].
-    destruct pk0; [inversion H; subst; apply PutP|].
+    destruct pk0; [inversion H; subst; apply PutX; reflexivity|].
     destruct (check_overlap (h_queue hn) b1 seq2 ts (rst || fin) false) as [q2 l2 added rel tags pk].
     cbn [c2_panic c2_queue c2_rel c2_added c2_len] in H.
-    destruct pk; [inversion H; subst; apply PutP|].
-    destruct ((0 <? l2) || (rst || fin) || syn); [|inversion H; subst; apply PutU; reflexivity].
+    destruct pk; [inversion H; subst; apply PutX; reflexivity|].
+    destruct ((0 <? l2) || (rst || fin) || syn); [|inversion H; subst; apply PutX; reflexivity].
     match type of H with context [send_conn v cfg c w ?hh ?xx ?r ?a] => destruct (send_conn v cfg c w hh xx r a) as [[[c1 rm1] x1] nextSeq] eqn:Es end.
     inversion H as [[A1 A2 A3]]; clear H; subst rm x'.
-    assert (EM : emits c (with_used x _) c1 x1 /\ (x_panic (with_used x _) = true -> x_panic x1 = true)) by (eapply send_conn_emits; [|exact Hnc|exact Es]; exact Ec).
-    destruct EM as [E1 _]. subst c'.
-    assert (E0 : emits c x c1 x1).
-    { destruct E1 as [S1 E1]. split; [exact S1|]. destruct E1 as [E1|[evs [Ev Sh]]]; [left; exact E1|right]. exists evs. split; [exact Ev|exact Sh]. }
-    destruct (nextSeq =? INVALID); [exact E0|].
-    eapply emits_trans; [exact E0|auto|]. apply emits_same; [apply sid_put|apply bc_put; reflexivity].
+    assert (EM : emits c (with_used x _) c1 x1 /\ (rm1 = true -> both_closed c1 = true)) by (eapply send_conn_emits; [|exact Hnc|exact Es]; exact Ec).
+    subst c'. apply Fin. destruct EM as [[S1 [evs [Ev Sh]]] R1]. split; [|exact R1]. split; [exact S1|]. exists evs. split; [exact Ev|exact Sh].
 Qed.
+
+End Once.
 
 (* ------------------------------------------------------------------ the pool *)
 Definition is_open (c : rconn) : bool := negb (both_closed c).
@@ -270,48 +279,37 @@ Proof.
 Qed.
 
 Section Pool.
-Hypothesis Hsaved : v_saved v = true.
-Hypothesis Hhp : v_hpages v = true.
+Variable v : variant.
 
 Definition rlinv (st : rstate) (ls : lstate) : Prop :=
   l_open ls = osids (rs_conns st) /\ NoDup (asids (rs_conns st)) /\
   (forall s, In s (l_open ls) \/ In s (l_done ls) \/ In s (asids (rs_conns st)) -> s <= rs_nstreams st).
 
-(* a per-connection function with its accounting and its events *)
+(* a per-connection function: its events, and it removes only connections closed in both directions *)
 Definition fspec (f : rconn -> rctx -> rconn * bool * rctx * Z * Z) : Prop :=
-  forall c x c' rm x' a b, cok cfg c -> x_panic x = false -> f c x = (c', rm, x', a, b) ->
-    good cfg (x_used x - cp c) c' rm x' /\ emits c x c' x'.
+  forall c x c' rm x' a b, f c x = (c', rm, x', a, b) -> emits c x c' x' /\ (rm = true -> both_closed c' = true).
 
-Lemma rflush_conns_log : forall f, fspec f -> forall l x pre done,
-  Forall (cok cfg) l -> x_panic x = false -> NoDup (pre ++ osids l) ->
-  x_panic (ra_x (rflush_conns f l x)) = false ->
+Lemma rflush_conns_log : forall f, fspec f -> forall l x pre done, NoDup (pre ++ osids l) ->
   exists evs done', x_ev (ra_x (rflush_conns f l x)) = x_ev x ++ evs /\
     lrun (mkL (pre ++ osids l) done) evs = Some (mkL (pre ++ osids (ra_keep (rflush_conns f l x))) done') /\
     (forall s, In s done' -> In s done \/ In s (asids l)) /\
     (forall s, In s (asids (ra_keep (rflush_conns f l x))) -> In s (asids l)) /\
     (NoDup (asids l) -> NoDup (asids (ra_keep (rflush_conns f l x)))).
 Proof.
-  intros f Hf. induction l as [|c l IH]; intros x pre done HF Hp Hn Hfin; cbn [rflush_conns] in *.
+  intros f Hf. induction l as [|c l IH]; intros x pre done Hn; cbn [rflush_conns] in *.
   - exists [], done. rewrite app_nil_r. cbn [ra_x ra_keep lrun]. repeat split; auto.
-  - rewrite Hp in *. inversion HF as [|? ? Hc HF']; subst.
+  - destruct (x_panic x).
+    { exists [], done. rewrite app_nil_r. cbn [ra_x ra_keep lrun]. repeat split; auto. }
     destruct (f c x) as [[[[c1 rm] x1] a] b] eqn:Ef. cbn [ra_x ra_keep] in *.
-    destruct (Hf _ _ _ _ _ _ _ Hc Hp Ef) as [Gd [Hs Em]].
-    destruct (x_panic x1) eqn:Ep1; [rewrite rflush_conns_panic in Hfin by exact Ep1; discriminate|].
-    destruct Em as [Em|[evs1 [Ev1 Sh1]]]; [congruence|].
-    destruct (good_G cfg _ _ _ _ Gd Ep1) as [[K1 [K2 K3]] _].
+    destruct (Hf _ _ _ _ _ _ _ Ef) as [[Hs [evs1 [Ev1 Sh1]]] K2].
     rewrite osids_cons in Hn. unfold is_open in Hn. rewrite (osids_cons c l). unfold is_open.
     assert (Hin : both_closed c = false -> In (rc_sid c) (pre ++ (if negb (both_closed c) then [rc_sid c] else []) ++ osids l)).
     { intros E. rewrite E. cbn [negb]. apply in_or_app. right. left. reflexivity. }
     pose proof (shape_run _ _ _ _ (mkL (pre ++ osids (c :: l)) done) Sh1) as R1. rewrite osids_cons in R1. unfold is_open in R1.
     specialize (R1 Hin). unfold after_shape in R1. cbn [l_open l_done] in R1.
-    (* the open list after c's events, and the rest *)
-    set (mid := if negb (both_closed c1) then [rc_sid c1] else []).
-    assert (Hmid : (if rm then [] else mid) = mid).
-    { destruct rm; [|reflexivity]. unfold mid. rewrite (K2 eq_refl). reflexivity. }
     destruct (both_closed c) eqn:Eb.
-    + (* already closed in both directions: nothing happens *)
-      cbn in Sh1. destruct Sh1 as [E1 B1]. subst evs1. cbn [negb andb app] in *. rewrite app_nil_r in Ev1.
-      destruct (IH x1 pre done HF' Ep1 Hn Hfin) as [evs [d' [I1 [I2 [I3 [I4 I5]]]]]].
+    + cbn in Sh1. destruct Sh1 as [E1 B1]. subst evs1. cbn [negb andb app] in *. rewrite app_nil_r in Ev1.
+      destruct (IH x1 pre done Hn) as [evs [d' [I1 [I2 [I3 [I4 I5]]]]]].
       exists evs, d'. split; [congruence|]. split.
       * rewrite I2. f_equal. f_equal. f_equal. destruct rm; [reflexivity|]. rewrite osids_cons. unfold is_open. rewrite B1. reflexivity.
       * split; [intros s Hi; destruct (I3 s Hi); [left; assumption|right; right; assumption]|].
@@ -320,19 +318,17 @@ Proof.
         cbn [asids map]. constructor; [rewrite Hs; intros Hi; apply Hn1; apply I4; exact Hi|apply I5; exact Hd1].
     + cbn [negb andb app] in *.
       destruct (both_closed c1) eqn:Eb1.
-      * (* completed in this call *)
-        rewrite zremove_mid in R1 by exact Hn.
-        destruct (IH x1 pre (rc_sid c :: done) HF' Ep1 (NoDup_remove_1 _ _ _ Hn) Hfin) as [evs [d' [I1 [I2 [I3 [I4 I5]]]]]].
+      * rewrite zremove_mid in R1 by exact Hn.
+        destruct (IH x1 pre (rc_sid c :: done) (NoDup_remove_1 _ _ _ Hn)) as [evs [d' [I1 [I2 [I3 [I4 I5]]]]]].
         exists (evs1 ++ evs), d'. split; [rewrite I1, Ev1, app_assoc; reflexivity|]. split.
         -- rewrite lrun_app, R1, I2. f_equal. f_equal. f_equal. destruct rm; [reflexivity|]. rewrite osids_cons. unfold is_open. rewrite Eb1. reflexivity.
         -- split; [intros s Hi; destruct (I3 s Hi) as [[E|H]|H]; [right; left; exact E|left; exact H|right; right; exact H]|].
            split; [intros s Hi; destruct rm; [right; apply I4; exact Hi|destruct Hi as [Hi|Hi]; [left; congruence|right; apply I4; exact Hi]]|].
            intros Hnd. inversion Hnd as [|? ? Hn1 Hd1]; subst. destruct rm; [apply I5; exact Hd1|].
            cbn [asids map]. constructor; [rewrite Hs; intros Hi; apply Hn1; apply I4; exact Hi|apply I5; exact Hd1].
-      * (* still open *)
-        assert (Hrm : rm = false). { destruct rm; [specialize (K2 eq_refl); congruence|reflexivity]. } subst rm.
+      * assert (Hrm : rm = false). { destruct rm; [specialize (K2 eq_refl); congruence|reflexivity]. } subst rm.
         assert (Hn' : NoDup ((pre ++ [rc_sid c]) ++ osids l)) by (rewrite <- app_assoc; exact Hn).
-        destruct (IH x1 (pre ++ [rc_sid c]) done HF' Ep1 Hn' Hfin) as [evs [d' [I1 [I2 [I3 [I4 I5]]]]]].
+        destruct (IH x1 (pre ++ [rc_sid c]) done Hn') as [evs [d' [I1 [I2 [I3 [I4 I5]]]]]].
         repeat rewrite <- app_assoc in I2. cbn [app] in I2.
         exists (evs1 ++ evs), d'. split; [rewrite I1, Ev1, app_assoc; reflexivity|]. split.
         -- rewrite lrun_app, R1, I2. rewrite osids_cons. unfold is_open. rewrite Eb1, Hs. reflexivity.
@@ -345,28 +341,28 @@ Qed.
 Lemma NoDup_snocZ : forall (l : list Z) x, NoDup l -> ~ In x l -> NoDup (l ++ [x]).
 Proof. intros l x H Hn. apply (NoDup_Add (Add_app x l [])). rewrite app_nil_r. split; assumption. Qed.
 
-Lemma rassemble_log : forall st ls k dir seq syn fin rst len ts, rinv cfg st -> rlinv st ls ->
-  ro_panic (snd (rassemble v st k dir seq syn fin rst len ts)) = false ->
+(* the state after a call is dead (the model panicked) or related to the log *)
+Definition J (st : rstate) (ls : lstate) : Prop := rs_dead st = true \/ rlinv st ls.
+
+Lemma rassemble_log : forall st ls k dir seq syn fin rst len ts, rlinv st ls ->
   exists ls', lrun ls (ro_ev (snd (rassemble v st k dir seq syn fin rst len ts))) = Some ls' /\
-              rlinv (fst (rassemble v st k dir seq syn fin rst len ts)) ls'.
+              J (fst (rassemble v st k dir seq syn fin rst len ts)) ls'.
 Proof.
-  intros st ls k dir seq syn fin rst len ts [Hc [Hu HF]] [Ho [Hn Hb]]. unfold rassemble. rewrite Hc.
+  intros st ls k dir seq syn fin rst len ts [Ho [Hn Hb]]. unfold rassemble.
   destruct (rsplit_key k (rs_conns st)) as [[[pre c] post]|] eqn:Es.
-  - apply rsplit_key_spec in Es. rewrite Es in HF, Ho, Hn, Hb.
-    apply Forall_app in HF. destruct HF as [F1 F2]. inversion F2 as [|xx ll Hcok F3]; subst xx ll.
-    destruct (assemble_conn v cfg c (Bool.eqb dir (rc_dir c)) (mkCtx (rs_used st) [] false) seq syn fin rst len ts) as [[c1 rm] x1] eqn:Ea.
-    destruct (assemble_conn_good v cfg Hsaved Hhp c _ (mkCtx (rs_used st) [] false) _ _ _ _ _ _ _ _ _ Hcok eq_refl Ea) as [Gd _].
-    destruct (assemble_conn_emits _ _ _ _ _ _ _ _ _ _ _ _ Ea) as [Hs Em].
-    destruct (x_panic x1) eqn:Ep; cbn [fst snd ro_panic ro_ev]; [discriminate|]. intros _.
-    destruct Em as [Em|[evs [Ev Sh]]]; [congruence|]. cbn [x_ev app] in Ev. rewrite Ev.
-    destruct (good_G cfg _ _ _ _ Gd Ep) as [[K1 [K2 K3]] _].
+  - apply rsplit_key_spec in Es. rewrite Es in Ho, Hn, Hb.
+    destruct (assemble_conn v (rs_cfg st) c (Bool.eqb dir (rc_dir c)) (mkCtx (rs_used st) [] false) seq syn fin rst len ts) as [[c1 rm] x1] eqn:Ea.
+    destruct (assemble_conn_emits _ _ _ _ _ _ _ _ _ _ _ _ _ _ Ea) as [[Hs [evs [Ev Sh]]] K2]. cbn [x_ev app] in Ev.
     rewrite osids_app, osids_cons in Ho. unfold is_open in Ho. rewrite asids_app in Hn. cbn [asids map] in Hn. fold (asids post) in Hn.
     assert (Hno : NoDup (osids pre ++ (if negb (both_closed c) then [rc_sid c] else []) ++ osids post)).
-    { rewrite <- Ho. rewrite Ho. pose proof (osids_nodup (pre ++ c :: post)) as N. rewrite asids_app in N. cbn [asids map] in N.
+    { pose proof (osids_nodup (pre ++ c :: post)) as N. rewrite asids_app in N. cbn [asids map] in N.
       specialize (N Hn). rewrite osids_app, osids_cons in N. exact N. }
     assert (Hin : both_closed c = false -> In (rc_sid c) (l_open ls)).
     { intros E. rewrite Ho, E. cbn [negb]. apply in_or_app. right. left. reflexivity. }
-    rewrite (shape_run _ _ _ _ ls Sh Hin). eexists. split; [reflexivity|].
+    pose proof (shape_run _ _ _ _ ls Sh Hin) as Run.
+    destruct (x_panic x1); cbn [fst snd ro_ev]; rewrite Ev.
+    { eexists. split; [exact Run|left; reflexivity]. }
+    eexists. split; [exact Run|right].
     assert (Hn1 : NoDup (asids (pre ++ c1 :: post))) by (rewrite asids_app; cbn [asids map]; rewrite Hs; exact Hn).
     assert (Hn2 : NoDup (asids (pre ++ post))) by (rewrite asids_app; eapply NoDup_remove_1; exact Hn).
     assert (Hsub : forall l', (forall s, In s (asids l') -> In s (asids (pre ++ c :: post))) ->
@@ -398,28 +394,24 @@ Proof.
   - set (sid := rs_nstreams st + 1).
     destruct (if rs_free st <=? 0 then (rs_alloc st - 1, 2 * rs_alloc st) else (rs_free st - 1, rs_alloc st)) as [free1 alloc1].
     set (c := mkRC k dir sid 0 (new_half ts) (new_half ts)).
-    assert (Hcok : cok cfg c).
-    { unfold cok, conn_ok, half_ok, both_closed, c, new_half, hp. cbn. repeat split; try reflexivity; try discriminate. }
-    destruct (assemble_conn v cfg c true (mkCtx (rs_used st) [] false) seq syn fin rst len ts) as [[c1 rm] x1] eqn:Ea.
-    destruct (assemble_conn_good v cfg Hsaved Hhp c _ (mkCtx (rs_used st) [] false) _ _ _ _ _ _ _ _ _ Hcok eq_refl Ea) as [Gd _].
-    destruct (assemble_conn_emits _ _ _ _ _ _ _ _ _ _ _ _ Ea) as [Hs Em]. cbn [rc_sid c] in Hs.
-    destruct (x_panic x1) eqn:Ep; cbn [fst snd ro_panic ro_ev]; [discriminate|]. intros _.
-    destruct Em as [Em|[evs [Ev Sh]]]; [congruence|]. cbn [x_ev app] in Ev. rewrite Ev.
-    destruct (good_G cfg _ _ _ _ Gd Ep) as [[K1 [K2 K3]] _].
+    destruct (assemble_conn v (rs_cfg st) c true (mkCtx (rs_used st) [] false) seq syn fin rst len ts) as [[c1 rm] x1] eqn:Ea.
+    destruct (assemble_conn_emits _ _ _ _ _ _ _ _ _ _ _ _ _ _ Ea) as [[Hs [evs [Ev Sh]]] K2]. cbn [rc_sid c x_ev app] in Hs, Ev, Sh.
     assert (Hf1 : ~ In sid (l_open ls)) by (intros Hi; specialize (Hb sid (or_introl Hi)); unfold sid in Hb; lia).
     assert (Hf2 : ~ In sid (l_done ls)) by (intros Hi; specialize (Hb sid (or_intror (or_introl Hi))); unfold sid in Hb; lia).
     assert (Hf3 : ~ In sid (asids (rs_conns st))) by (intros Hi; specialize (Hb sid (or_intror (or_intror Hi))); unfold sid in Hb; lia).
-    cbn [lrun lstep]. apply zmem_false in Hf1. apply zmem_false in Hf2. rewrite Hf1, Hf2. cbn [orb].
-    apply zmem_false in Hf1.
     set (ls1 := mkL (l_open ls ++ [sid]) (l_done ls)).
-    assert (Hbc : both_closed c = false) by reflexivity. cbn [rc_sid c] in Sh. rewrite Hbc in Sh.
-    rewrite (shape_run sid false (both_closed c1) evs ls1 Sh); [|intros _; cbn [ls1 l_open]; apply in_or_app; right; left; reflexivity].
-    eexists. split; [reflexivity|]. unfold after_shape, rlinv. cbn [negb andb rs_conns rs_nstreams ls1 l_open l_done].
+    assert (Hbc : both_closed c = false) by reflexivity. rewrite Hbc in Sh.
+    assert (Run : lrun ls (ENew sid :: evs) = Some (after_shape sid false (both_closed c1) ls1)).
+    { cbn [lrun lstep]. pose proof Hf1 as Z1. pose proof Hf2 as Z2. apply zmem_false in Z1. apply zmem_false in Z2. rewrite Z1, Z2. cbn [orb].
+      fold ls1. apply shape_run; [exact Sh|]. intros _. cbn [ls1 l_open]. apply in_or_app. right. left. reflexivity. }
+    destruct (x_panic x1); cbn [fst snd ro_ev]; rewrite Ev.
+    { eexists. split; [exact Run|left; reflexivity]. }
+    eexists. split; [exact Run|right]. unfold after_shape, rlinv. cbn [negb andb rs_conns rs_nstreams].
     assert (Hn1 : NoDup (l_open ls ++ [sid])) by (apply NoDup_snocZ; [rewrite Ho; apply osids_nodup; exact Hn|exact Hf1]).
     assert (Hbd : forall s, In s (l_open ls) \/ In s (l_done ls) \/ In s (asids (rs_conns st)) -> s <= sid).
     { intros s H. specialize (Hb s H). unfold sid. lia. }
     destruct (both_closed c1) eqn:Eb1.
-    + cbn [l_open l_done]. rewrite zremove_mid by exact Hn1. rewrite app_nil_r.
+    + unfold ls1. cbn [l_open l_done]. rewrite zremove_mid by exact Hn1. rewrite app_nil_r.
       destruct rm.
       * split; [exact Ho|]. split; [exact Hn|]. intros s [H|[[H|H]|H]]; [apply Hbd; auto|unfold sid in *; lia|apply Hbd; auto|apply Hbd; auto].
       * split; [rewrite osids_app, osids_cons; unfold is_open; rewrite Eb1; cbn [negb app]; rewrite app_nil_r; exact Ho|].
@@ -436,84 +428,67 @@ Proof.
       * rewrite asids_app in H. apply in_app_or in H. destruct H as [H|[H|[]]]; [apply Hbd; auto|unfold sid in *; lia].
 Qed.
 
-Lemma rflush_with_log : forall f st ls fa, fspec f -> rinv cfg st -> rlinv st ls ->
-  ro_panic (snd (rflush_with f st fa)) = false ->
-  exists ls', lrun ls (ro_ev (snd (rflush_with f st fa))) = Some ls' /\ rlinv (fst (rflush_with f st fa)) ls'.
+Lemma rflush_with_log : forall f st ls fa, fspec f -> rlinv st ls ->
+  exists ls', lrun ls (ro_ev (snd (rflush_with f st fa))) = Some ls' /\ J (fst (rflush_with f st fa)) ls'.
 Proof.
-  intros f st ls fa Hf [Hc [Hu HF]] [Ho [Hn Hb]]. unfold rflush_with.
-  destruct (x_panic (ra_x (rflush_conns f (rs_conns st) (mkCtx (rs_used st) [] false)))) eqn:Ep; cbn [fst snd ro_panic ro_ev]; [discriminate|].
-  intros _.
-  destruct (rflush_conns_log f Hf (rs_conns st) (mkCtx (rs_used st) [] false) [] (l_done ls) HF eq_refl (osids_nodup _ Hn) Ep)
+  intros f st ls fa Hf [Ho [Hn Hb]]. unfold rflush_with.
+  destruct (rflush_conns_log f Hf (rs_conns st) (mkCtx (rs_used st) [] false) [] (l_done ls) (osids_nodup _ Hn))
     as [evs [d' [I1 [I2 [I3 [I4 I5]]]]]].
-  cbn [x_ev app] in I1, I2. rewrite I1.
-  exists (mkL (osids (ra_keep (rflush_conns f (rs_conns st) (mkCtx (rs_used st) [] false)))) d'). split.
-  - destruct ls as [o d]. cbn [l_open l_done] in *. subst o. exact I2.
-  - unfold rlinv. cbn [rs_conns rs_nstreams l_open l_done]. split; [reflexivity|]. split; [apply I5; exact Hn|].
-    intros s [H|[H|H]].
-    + apply Hb. right. right. apply I4. apply osids_in_asids. exact H.
-    + destruct (I3 s H) as [H1|H1]; apply Hb; [right; left; exact H1|right; right; exact H1].
-    + apply Hb. right. right. apply I4. exact H.
+  cbn [x_ev app] in I1, I2.
+  assert (Run : lrun ls evs = Some (mkL (osids (ra_keep (rflush_conns f (rs_conns st) (mkCtx (rs_used st) [] false)))) d')).
+  { destruct ls as [o d]. cbn [l_open l_done] in *. subst o. exact I2. }
+  destruct (x_panic (ra_x (rflush_conns f (rs_conns st) (mkCtx (rs_used st) [] false)))); cbn [fst snd ro_ev]; rewrite I1.
+  { eexists. split; [exact Run|left; reflexivity]. }
+  eexists. split; [exact Run|right].
+  unfold rlinv. cbn [rs_conns rs_nstreams l_open l_done]. split; [reflexivity|]. split; [apply I5; exact Hn|].
+  intros s [H|[H|H]].
+  - apply Hb. right. right. apply I4. apply osids_in_asids. exact H.
+  - destruct (I3 s H) as [H1|H1]; apply Hb; [right; left; exact H1|right; right; exact H1].
+  - apply Hb. right. right. apply I4. exact H.
 Qed.
 
-Lemma rstep_log : forall st ls o, rinv cfg st -> rlinv st ls -> rs_dead st = false ->
-  ro_panic (snd (rstep v st o)) = false ->
-  exists ls', lrun ls (ro_ev (snd (rstep v st o))) = Some ls' /\ rlinv (fst (rstep v st o)) ls'.
+Lemma rstep_log : forall st ls o, J st ls ->
+  exists ls', lrun ls (ro_ev (snd (rstep v st o))) = Some ls' /\ J (fst (rstep v st o)) ls'.
 Proof.
-  intros st ls o Hi L Hd. unfold rstep. rewrite Hd. destruct o.
-  - apply rassemble_log; assumption.
-  - destruct Hi as [Hc Hi']. rewrite Hc. apply rflush_with_log; [|split; assumption|exact L].
-    intros c x c' rm x' a b Hcok Hp Hf. split; [eapply flush_conn_good; eauto|eapply flush_conn_emits; eauto].
-  - destruct Hi as [Hc Hi']. rewrite Hc. apply rflush_with_log; [|split; assumption|exact L].
-    intros c x c' rm x' a b Hcok Hp Hf. split; [eapply flush_all_conn_good; eauto|eapply flush_all_conn_emits; eauto].
+  intros st ls o [Hd|L]; unfold rstep.
+  - rewrite Hd. exists ls. split; [reflexivity|left; exact Hd].
+  - destruct (rs_dead st) eqn:Hd; [exists ls; split; [reflexivity|left; exact Hd]|]. destruct o.
+    + apply rassemble_log. exact L.
+    + apply rflush_with_log; [|exact L]. intros c x c' rm x' a b Hf. eapply (flush_conn_emits v (rs_cfg st)); exact Hf.
+    + apply rflush_with_log; [|exact L]. intros c x c' rm x' a b Hf. eapply (flush_all_conn_emits v (rs_cfg st)); exact Hf.
 Qed.
 
-Lemma rstep_dead_out : forall st o, rs_dead (fst (rstep v st o)) = ro_panic (snd (rstep v st o)).
+Lemma rrun_log : forall ops st ls, J st ls ->
+  exists ls', lrun ls (snd (rrun_state v st ops)) = Some ls' /\ J (fst (rrun_state v st ops)) ls'.
 Proof.
-  intros st o. unfold rstep. destruct (rs_dead st) eqn:Ed; [cbn; exact Ed|]. destruct o.
-  - unfold rassemble. destruct (rsplit_key key (rs_conns st)) as [[[pre c] post]|].
-    + destruct (assemble_conn _ _ _ _ _ _ _ _ _ _ _) as [[c1 rm] x1]. destruct (x_panic x1); reflexivity.
-    + destruct (if rs_free st <=? 0 then _ else _) as [free1 alloc1].
-      destruct (assemble_conn _ _ _ _ _ _ _ _ _ _ _) as [[c1 rm] x1]. destruct (x_panic x1); reflexivity.
-  - unfold rflush_with. destruct (x_panic _); reflexivity.
-  - unfold rflush_with. destruct (x_panic _); reflexivity.
-Qed.
-
-Lemma dead_sticky : forall ops st, rs_dead st = true -> rs_dead (fst (rrun_state v st ops)) = true.
-Proof.
-  induction ops as [|o ops IH]; intros st H; cbn [rrun_state]; [exact H|].
-  assert (E : rstep v st o = (st, mkRO [] 0 0 true)) by (unfold rstep; rewrite H; reflexivity).
-  rewrite E. specialize (IH st H). destruct (rrun_state v st ops). exact IH.
-Qed.
-
-Lemma rrun_log : forall ops st ls, rinv cfg st -> rlinv st ls -> rs_dead st = false ->
-  rs_dead (fst (rrun_state v st ops)) = false ->
-  exists ls', lrun ls (snd (rrun_state v st ops)) = Some ls' /\ rlinv (fst (rrun_state v st ops)) ls'.
-Proof.
-  induction ops as [|o ops IH]; intros st ls Hi L Hd Hfin; cbn [rrun_state] in *.
-  - exists ls. split; [reflexivity|exact L].
-  - pose proof (rstep_inv v cfg Hsaved Hhp st o Hi) as Hi1. pose proof (rstep_dead_out st o) as Dd.
-    pose proof (rstep_log st ls o Hi L Hd) as SL.
-    destruct (rstep v st o) as [st' ou]. cbn [fst snd] in *.
-    destruct (rs_dead st') eqn:Ed'.
-    + pose proof (dead_sticky ops st' Ed') as Hs. destruct (rrun_state v st' ops). cbn [fst] in *. congruence.
-    + destruct (SL (eq_sym Dd)) as [ls1 [R1 L1]].
-      specialize (IH st' ls1 Hi1 L1 Ed'). destruct (rrun_state v st' ops) as [st2 ev]. cbn [fst snd] in *.
-      destruct (IH Hfin) as [ls2 [R2 L2]]. exists ls2. split; [rewrite lrun_app, R1; exact R2|exact L2].
+  induction ops as [|o ops IH]; intros st ls HJ; cbn [rrun_state].
+  - exists ls. split; [reflexivity|exact HJ].
+  - destruct (rstep_log st ls o HJ) as [ls1 [R1 J1]]. destruct (rstep v st o) as [st' ou]. cbn [fst snd] in *.
+    destruct (IH st' ls1 J1) as [ls2 [R2 J2]]. destruct (rrun_state v st' ops) as [st2 ev]. cbn [fst snd] in *.
+    exists ls2. split; [rewrite lrun_app, R1; exact R2|exact J2].
 Qed.
 End Pool.
-End Once.
 
-(* C11_once for the repaired reassembly: if no call of the history panicked, the callback log is
-   accepted by the lifecycle automaton and the streams still open are exactly those of the
-   connections not yet closed in both directions *)
+(* C11_once for reassembly, every variant, every history -- also those on which the model
+   panics: the callback log is accepted by the lifecycle automaton; and as long as no call has
+   panicked the streams still open are exactly those of the connections not yet closed in both
+   directions *)
+Lemma r_once_total : forall v cfg ops,
+  exists ls, lrun l0 (snd (rrun_state v (rinit cfg) ops)) = Some ls /\
+             (rs_dead (fst (rrun_state v (rinit cfg) ops)) = false ->
+              l_open ls = osids (rs_conns (fst (rrun_state v (rinit cfg) ops)))).
+Proof.
+  intros v cfg ops.
+  assert (L0 : J (rinit cfg) l0).
+  { right. unfold rlinv, rinit, l0. cbn. split; [reflexivity|]. split; [constructor|]. intros s [[]|[[]|[]]]. }
+  destruct (rrun_log v ops _ _ L0) as [ls [R HJ]].
+  exists ls. split; [exact R|]. intros Hd. destruct HJ as [HJ|[Ho _]]; [congruence|exact Ho].
+Qed.
+
 Lemma r_once : forall v cfg ops, v_saved v = true -> v_hpages v = true ->
   rs_dead (fst (rrun_state v (rinit cfg) ops)) = false ->
   exists ls, lrun l0 (snd (rrun_state v (rinit cfg) ops)) = Some ls /\
              l_open ls = osids (rs_conns (fst (rrun_state v (rinit cfg) ops))).
 Proof.
-  intros v cfg ops Hs Hh Hd.
-  assert (L0 : rlinv (rinit cfg) l0).
-  { unfold rlinv, rinit, l0. cbn. split; [reflexivity|]. split; [constructor|]. intros s [[]|[[]|[]]]. }
-  destruct (rrun_log v cfg Hs Hh ops _ _ (rinit_inv cfg) L0 eq_refl Hd) as [ls [R [Ho _]]].
-  exists ls. split; [exact R|exact Ho].
+  intros v cfg ops _ _ Hd. destruct (r_once_total v cfg ops) as [ls [R Ho]]. exists ls. split; [exact R|exact (Ho Hd)].
 Qed.
